@@ -745,6 +745,8 @@ def _unary(fn):
 
 
 def _abs(ex, v, ctx):
+    if isinstance(v, ConcVec):
+        return ConcVec(_abs(ex, x, ctx) for x in v.items)
     if isinstance(v, SeqVal):
         i = z3.Int(fresh_name("i"))
         e = z3.Select(v.arr, i)
